@@ -99,15 +99,17 @@ SymbolicMass == (Done /\ c.m2 \in {100, 101}) => o = EvalOut([c EXCEPT !.m2 = IF
 
 -----------------------------------------------------------------------------
 (* load-time completeness: every (FL, mass) pair of a phase exactly once *)
-Corruptions == {"none", "remove", "duplicate", "duplicate_and_remove", "tas_depends_on_mass"}
+\* "mass_mistyped": a row carries the mass of its neighbour row of the same level (its own values unchanged):
+\* one (level, mass) pair twice with DIFFERENT values, another pair missing, row count unchanged
+Corruptions == {"none", "remove", "duplicate", "duplicate_and_remove", "tas_depends_on_mass", "mass_mistyped"}
 LoadCases == UNION {[fls : {F}, ph : Phases, corr : Corruptions, r1 : 1..(3 * Len(F)), r2 : 1..(3 * Len(F))] :
                        F \in {<<50, 100>>, <<0, 100, 300>>}}
 \* rows of a phase are numbered FL-major; descent has one row per FL
 RowsOf(x) == IF x.ph = "descent" THEN Len(x.fls) ELSE 3 * Len(x.fls)
 LoadValid(x) == x.r1 <= RowsOf(x) /\ x.r2 <= RowsOf(x) /\ (x.corr = "duplicate_and_remove" => x.r1 # x.r2)
                 /\ (x.corr \in {"none"} => x.r1 = 1 /\ x.r2 = 1)
-                /\ (x.corr \in {"remove", "duplicate", "tas_depends_on_mass"} => x.r2 = 1)
-                /\ (x.corr \in {"tas_depends_on_mass", "remove"} => x.ph # "descent")   \* a descent table without one level is still a complete grid
+                /\ (x.corr \in {"remove", "duplicate", "tas_depends_on_mass", "mass_mistyped"} => x.r2 = 1)
+                /\ (x.corr \in {"tas_depends_on_mass", "remove", "mass_mistyped"} => x.ph # "descent")   \* a descent table without one level is still a complete grid
 LoadOut(x) == [accepted |-> x.corr = "none"]
 LoadSpec == Start({x \in LoadCases : LoadValid(x)}) /\ [][Step(LoadOut(c))]_vars
 OnlyCompleteAccepted == Done => (o.accepted <=> c.corr = "none")
